@@ -221,6 +221,9 @@ func (x *Explorer) Run() {
 						}
 					}
 					rr.mu.Unlock()
+					if x.verbose && pr.Failure != nil && len(pr.Failure.Env) > 0 {
+						fmt.Printf("  env events of the failing run: %v\n", pr.Failure.Env)
+					}
 					if x.verbose {
 						fmt.Printf("  path %s %s: %s %s (decs=%d steps=%d)\n", rr.Root.Key(), decString(pr.Decs), pr.Status, pr.Reason, len(pr.Decs), pr.Steps)
 					}
